@@ -23,17 +23,28 @@ from .values import NONE, VExc, VNone, VRef, fresh_name, reset_names
 
 
 class Outcome:
-    def __init__(self, label, kind='return', exc=None, guard=True, result=None, post=None):
+    def __init__(self, label, kind='return', exc=None, guard=True, result=None, post=None,
+                 witness=None):
         self.label = label
         self.kind = kind            # 'return' | 'raise'
         self.exc = exc              # exception class qual for 'raise'
-        self.guard = guard          # z3 Bool over pre-state
+        self.witness = witness      # fn(c, E): create fresh ghost witnesses in E.ghost (call sites)
+        self.guard = guard          # formula over the pre-state, or fn(c, E) -> formula (lazy:
+                                    # may mention ghost witnesses found in E.ghost)
         self.result = result        # fn(c, E) -> fresh Value (call sites)
         self.post = post or (lambda c, E, res: [])
 
 
+def guard_of(o, c, E):
+    g = o.guard
+    if callable(g):
+        g = g(c, E)
+    return g
+
+
 class LoopSpec:
-    def __init__(self, inv, decreases=None, havoc=None, kinds=None):
+    def __init__(self, inv, decreases=None, havoc=None, kinds=None, on_exit=None):
+        self.on_exit = on_exit      # fn(c, fr): called when the loop is left (break / condition)
         self.inv = inv              # fn(c, fr) -> [(label, Bool)]
         self.decreases = decreases  # fn(c, fr) -> Int term
         self.havoc = havoc          # fn(c, fr): havoc heap locations the body may modify
@@ -69,6 +80,10 @@ class Spec:
     def requires(self, c, E):
         return []
 
+    def definitions(self, c, E):
+        """definitional (conservative) ghost axioms: assumed on both sides, never obligations"""
+        return []
+
     def outcomes(self, c, E):
         return [Outcome('default')]
 
@@ -95,10 +110,15 @@ class Spec:
     def apply(self, c, interp, amap, node):
         E = Env(amap, c.snapshot())
         short = self.func.split(':')[1]
+        for b in self.definitions(c, E):
+            c.assume(b)
         for lbl, b in self.requires(c, E):
             c.oblige('pre:%s.%s' % (short, lbl), b, node)
         outs = self.outcomes(c, E)
-        i = c.choose([o.guard for o in outs], 'outcome:' + short)
+        for o in outs:
+            if o.witness is not None:
+                o.witness(c, E)
+        i = c.choose([guard_of(o, c, E) for o in outs], 'outcome:' + short)
         o = outs[i]
         self.havoc(c, E, o)
         if o.kind == 'raise':
@@ -197,6 +217,8 @@ def _verify_case(reg, spec, interp, res, m, fn, ex, case):
         c.hooks.update(spec.hooks(c) or {})
         args = spec.setup(c, case)
         E = Env(args, None)
+        for b in spec.definitions(c, E):
+            c.assume(b)
         for lbl, b in spec.requires(c, E):
             c.assume(b)
         E.old = c.snapshot()
@@ -253,20 +275,22 @@ def check_exit(c, spec, E, outs, mods, kind, val, ex):
         match = [o for o in outs if o.kind == 'return']
     # cover: this exit is reachable
     ex.covers[label] = True
+    from .ground import FAnd, FOr
     goal_parts = []
-    for o in match:
-        conj = [engine.as_z3_bool(o.guard)]
-        for lbl, b in o.post(c, E, val):
-            conj.append(engine.as_z3_bool(b))
-        goal_parts.append(z3.And(conj))
+    if len(match) != 1:
+        for o in match:
+            conj = [engine.as_z3_bool(guard_of(o, c, E))]
+            for lbl, b in o.post(c, E, val):
+                conj.append(engine.as_z3_bool(b))
+            goal_parts.append(FAnd(*conj))
     if len(match) == 1:
         o = match[0]
-        c.oblige('post.%s.guard[%s]' % (label, o.label), engine.as_z3_bool(o.guard),
-                 assume_after=False)
+        c.oblige('post.%s.guard[%s]' % (label, o.label),
+                 engine.as_z3_bool(guard_of(o, c, E)), assume_after=False)
         for lbl, b in o.post(c, E, val):
             c.oblige('post.%s.%s' % (label, lbl), engine.as_z3_bool(b), assume_after=False)
     else:
-        goal = z3.Or(goal_parts) if goal_parts else z3.BoolVal(False)
+        goal = FOr(*goal_parts) if goal_parts else z3.BoolVal(False)
         c.oblige('post.%s' % label if match else 'post.%s.unexpected-exit' % label, goal,
                  assume_after=False)
     # frame: every pre-existing heap location not in modifies is unchanged
